@@ -261,7 +261,7 @@ type SH struct {
 	} `json:"msg"`
 }
 
-const ruleSynth = "rapid-drawn values: audit paths with indexes anywhere in uint64 (biased to 0, 255/256, 2^32+-1, 2^63-1, 2^64-1) and heights 0..65535 through AuditPath.Serialize -> json -> ParseAuditPath; snapshots / signed snapshots / batches with arbitrary digests, versions and signatures through Encode/Decode; add-event commands, FSM state, version metadata and raft-snapshot bodies through their msgpack codecs (consensus hooks); gossip messages with arbitrary kind, TTL>=0, payload and peer through Message.Encode/Decode. Oracle: decode(encode(x)) == x field by field (nil == empty for byte slices). Non-trivial: the value has an audit-path entry with index >= 256 or a non-empty message payload. distinct = FNV-64 of the value."
+const ruleSynth = "rapid-drawn values: audit paths with indexes anywhere in uint64 (biased to 0, 255/256, 2^32+-1, 2^63-1, 2^64-1) and heights 0..65535 through AuditPath.Serialize -> json -> ParseAuditPath; snapshots / signed snapshots / batches with arbitrary digests, versions and signatures through Encode/Decode; add-event commands, FSM state, version metadata and raft-snapshot bodies through their msgpack codecs (consensus hooks); gossip messages with arbitrary kind, TTL>=0, payload and peer through Message.Encode/Decode. Oracle: decode(encode(x)) == x field by field (nil == empty for byte slices); and every encoding handed out during the case is held, as the sender and the gossip queue hold them, and must still be byte-identical at the end of the case (encoding one value must not disturb another's bytes). Non-trivial: the value has an audit-path entry with index >= 256 or a non-empty message payload. distinct = FNV-64 of the value."
 
 func u64() *rapid.Generator[uint64] {
 	return rapid.OneOf(
@@ -315,6 +315,16 @@ func TestSyntheticRoundTrip(t *testing.T) {
 
 func execSynth(h SH, rec *pbt.Rec) error {
 	idx256 := false
+	// every encoding handed out is kept (as the sender, the gossip queue and the stores keep
+	// them) together with a private copy taken at that moment; later encodings must not change it
+	type heldEnc struct {
+		what      string
+		enc, copy []byte
+	}
+	var held []heldEnc
+	hold := func(what string, enc []byte) {
+		held = append(held, heldEnc{what, enc, append([]byte(nil), enc...)})
+	}
 	// audit path
 	ap := history.AuditPath{}
 	for _, e := range h.Path {
@@ -347,6 +357,7 @@ func execSynth(h SH, rec *pbt.Rec) error {
 		if err != nil {
 			return err
 		}
+		hold(fmt.Sprintf("Snapshot(version %d).Encode", ps.Version), enc)
 		var back protocol.Snapshot
 		if err := back.Decode(enc); err != nil {
 			return err
@@ -359,6 +370,7 @@ func execSynth(h SH, rec *pbt.Rec) error {
 		if err != nil {
 			return err
 		}
+		hold(fmt.Sprintf("SignedSnapshot(version %d).Encode", ps.Version), enc)
 		var sback protocol.SignedSnapshot
 		if err := sback.Decode(enc); err != nil {
 			return err
@@ -371,6 +383,14 @@ func execSynth(h SH, rec *pbt.Rec) error {
 	enc, err := batch.Encode()
 	if err != nil {
 		return err
+	}
+	hold("BatchSnapshots.Encode", enc)
+	// the sender encodes batch after batch while earlier payloads are still queued
+	for k := 1; k <= 2 && len(batch.Snapshots) > k; k++ {
+		part := &protocol.BatchSnapshots{Snapshots: batch.Snapshots[k:]}
+		if e2, err := part.Encode(); err == nil {
+			hold(fmt.Sprintf("BatchSnapshots[%d:].Encode", k), e2)
+		}
 	}
 	var bback protocol.BatchSnapshots
 	if err := bback.Decode(enc); err != nil {
@@ -433,6 +453,10 @@ func execSynth(h SH, rec *pbt.Rec) error {
 	if err != nil {
 		return err
 	}
+	hold("gossip Message.Encode", mb)
+	if mb2, err := (&gossip.Message{Kind: msg.Kind, TTL: msg.TTL + 1, Payload: msg.Payload, From: msg.From}).Encode(); err == nil {
+		hold("gossip Message.Encode (second)", mb2)
+	}
 	var mback gossip.Message
 	if err := mback.Decode(mb); err != nil {
 		return fmt.Errorf("message decode: %v", err)
@@ -449,6 +473,12 @@ func execSynth(h SH, rec *pbt.Rec) error {
 			return fmt.Errorf("message round trip: peer %+v became %+v", a, b)
 		}
 	}
+	for i, e := range held {
+		if !eqBytes(e.enc, e.copy) {
+			return fmt.Errorf("the bytes returned by %s (encoding %d of %d in this case) changed after later encodings: they were %q and are now %q", e.what, i+1, len(held), clip(e.copy), clip(e.enc))
+		}
+	}
+	rec.Count("held_encodings_compared", int64(len(held)))
 	rec.Case(h, idx256 || len(h.Msg.Payload) > 0, "")
 	rec.Sample(len(h.Path)+len(h.Snaps), h)
 	return nil
@@ -456,4 +486,11 @@ func execSynth(h SH, rec *pbt.Rec) error {
 
 func eqSnap(a, b *protocol.Snapshot) bool {
 	return eqBytes(a.EventDigest, b.EventDigest) && eqBytes(a.HistoryDigest, b.HistoryDigest) && eqBytes(a.HyperDigest, b.HyperDigest) && a.Version == b.Version
+}
+
+func clip(b []byte) string {
+	if len(b) > 120 {
+		return string(b[:120]) + "..."
+	}
+	return string(b)
 }
